@@ -1,7 +1,7 @@
 //! Generic evaluator: one request per stdin line, one outcome per stdout line.
 //! Line format: `<flags>\t<program>` where the program has newlines/backslashes escaped as
 //! `\n` / `\\`, and flags is a comma-separated subset of
-//! `full,static-full,nodedup,depsunknown,notc,order,detail,fuel=<n>,field=<path>`.
+//! `full,static-full,nodedup,depsunknown,notc,order,detail,fuel=<n>,field=<path>,fmt=json|yaml|toml`.
 use std::io::{BufRead, Write};
 use verif_harness::eval::{Mode, Opts, run, unescape};
 
@@ -29,6 +29,14 @@ fn main() {
                         o.fuel = n.parse().unwrap();
                     } else if let Some(p) = f.strip_prefix("field=") {
                         o.field = Some(p.to_owned());
+                    } else if let Some(p) = f.strip_prefix("fmt=") {
+                        use nickel_lang_core::serialize::ExportFormat;
+                        o.text_format = match p {
+                            "json" => Some(ExportFormat::Json),
+                            "yaml" => Some(ExportFormat::Yaml),
+                            "toml" => Some(ExportFormat::Toml),
+                            _ => None,
+                        };
                     }
                 }
             }
